@@ -266,6 +266,7 @@ DG_PROD_SRC = ("class Prod:\n    def __init__(self, *operands):\n        self.op
 DG_MP_SRC = ("class {0}:\n    def __init__(self, obs=None, wires=None):\n        self.obs = obs\n        self.wires = wires\n"
              "    @property\n    def samples_computational_basis(self):\n        return self.obs is None\n")
 DG_PLAIN_SRC = "class {0}:\n    pass\n"
+DG_OPAQUE_SRC = "class Hermitian:\n    def __eq__(self, other):\n        return __op_eq__(self, other)\n"
 DG_KINDS = {"x": "X", "y": "Y", "z": "Z", "h": "Hadamard", "i": "Identity"}
 DG_MPS = {"E": "ExpectationMP", "V": "VarianceMP", "P": "ProbabilityMP", "S": "SampleMP", "C": "CountsMP"}
 DG_REAL_NAME = {"PauliX": "X", "PauliY": "Y", "PauliZ": "Z", "Hadamard": "Hadamard", "Identity": "Identity", "X": "X", "Y": "Y", "Z": "Z"}
@@ -274,6 +275,13 @@ DG_NW = 3
 # measurement with k wires (0 = no wires given = all tape wires)
 DG_OBS = [("E", "x"), ("E", "y"), ("E", "z"), ("E", "h"), ("E", "i"), ("V", "x"), ("E", "xz"), ("E", "yx"), ("V", "hi")]
 DG_CB = [("P", 0), ("P", 1), ("P", 2), ("S", 0), ("C", 1)]
+# opaque non-Pauli leaves (finding F37): "o" / "O" = an uninterpreted observable (symbolic identity) on 1 / 2 symbolic wires, handled by
+# the default body of _diagonalize_non_basic_observable: RETURNS => no basis change on any of its wires (applied before or after it) and
+# the leaf is returned unchanged;  it clashes (ValueError) with every different non-identity leaf / computational-basis measurement that
+# shares one of its wires (an equal opaque observable -- same identity, same wires -- does not clash)
+DG_OPQ = [("E", "o"), ("E", "O"), ("V", "xo")]
+DG_OPQ_TRIPLES = [(("E", "x"), ("E", "o"), ("E", "x")), (("E", "o"), ("E", "z"), ("E", "o")), (("P", 1), ("E", "O"), ("E", "y")),
+                  (("E", "O"), ("E", "O"), ("E", "h")), (("E", "i"), ("E", "O"), ("E", "xz"))]
 DG_TRIPLES = [(("P", 0), ("E", "z"), ("E", "x")), (("E", "x"), ("E", "xz"), ("P", 1)), (("E", "y"), ("S", 1), ("E", "yx")),
               (("E", "h"), ("V", "hi"), ("E", "z")), (("P", 1), ("C", 0), ("E", "zz")), (("E", "xz"), ("E", "yx"), ("E", "z")),
               (("E", "x"), ("E", "x"), ("V", "x")), (("P", 1), ("P", 1), ("E", "y"))]
@@ -397,6 +405,8 @@ def add_diagonalize_bookkeeping(plan, tier):
             for p, q in zip(a.operands, b.operands):
                 r = it.and_(r, it.equal(p, q))
             return r
+        if a.cls.name == "Hermitian":
+            return it.and_(a.ident == b.ident, it.equal(a.wires, b.wires))
         return it.equal(a.wires, b.wires)
 
     def b_diag_gates(it, args, kw):
@@ -414,6 +424,7 @@ def add_diagonalize_bookkeeping(plan, tier):
 
     stubs = {k: (DG_PAULI_SRC.format(k), {"wires": Label}) for k in DG_KINDS.values()}
     stubs["Prod"] = (DG_PROD_SRC, {"operands": Label})
+    stubs["Hermitian"] = (DG_OPAQUE_SRC, {"ident": Label, "wires": Label})
     stubs.update({k: (DG_MP_SRC.format(k), {"obs": Label, "wires": Label}) for k in DG_MPS.values()})
     stubs["Tape"] = (DG_PLAIN_SRC.format("Tape"), {"measurements": Label, "wires": Label})
     stubs["BasisChange"] = (DG_PLAIN_SRC.format("BasisChange"), {"kind": Label, "wire": Int})
@@ -434,7 +445,10 @@ def add_diagonalize_bookkeeping(plan, tier):
             for j, (mk_, t) in enumerate(shape):
                 cls = w.classes[DG_MPS[mk_]]
                 if isinstance(t, str):
-                    leaves = [Rec(w.classes[DG_KINDS[c]], {"wires": PyList([wire(f"m{j}.leaf{p}")])}) for p, c in enumerate(t)]
+                    leaves = [Rec(w.classes[DG_KINDS[c]], {"wires": PyList([wire(f"m{j}.leaf{p}")])}) if c in DG_KINDS else
+                              Rec(w.classes["Hermitian"], {"ident": z3.Const(ctx.fresh_name(f"{name}.m{j}.leaf{p}.matrix"), LabelSort),
+                                                           "wires": PyList([wire(f"m{j}.leaf{p}.w{q}") for q in range(1 if c == "o" else 2)])})
+                              for p, c in enumerate(t)]
                     obs = leaves[0] if len(leaves) == 1 else Rec(w.classes["Prod"], {"operands": tuple(leaves)})
                     mps.append(Rec(cls, {"obs": obs, "wires": None}))
                 else:
@@ -448,7 +462,9 @@ def add_diagonalize_bookkeeping(plan, tier):
             mps = []
             for mk_, t in shape:
                 if isinstance(t, str):
-                    leaves = [{"__class__": DG_KINDS[c], "wires": [rng.choice(labels)]} for c in t]
+                    leaves = [{"__class__": DG_KINDS[c], "wires": [rng.choice(labels)]} if c in DG_KINDS else
+                              {"__class__": "Hermitian", "ident": f"L{rng.randint(0, 2)}", "wires": rng.sample(labels, 1 if c == "o" else 2)}
+                              for c in t]
                     obs = leaves[0] if len(leaves) == 1 else {"__class__": "Prod", "operands": tuple(leaves)}
                     mps.append({"__class__": DG_MPS[mk_], "obs": obs, "wires": None})
                 else:
@@ -496,6 +512,15 @@ def add_diagonalize_bookkeeping(plan, tier):
         return qp.tape.QuantumScript(state_prep(list(fields["wires"])), list(fields["measurements"]))
     w.stub_realize = {k: real_pauli(k) for k in DG_KINDS.values()}
     w.stub_realize.update({k: real_mp(k) for k in DG_MPS.values()})
+    def real_opaque(fields):
+        import numpy as np
+        import pennylane as qp
+        ws = list(fields["wires"])
+        digits = "".join(ch for ch in str(fields.get("ident")) if ch.isdigit())
+        rng = np.random.default_rng(1000 + (int(digits) if digits else 0) % 7 + 10 * len(ws))
+        m = rng.normal(size=(2 ** len(ws),) * 2) + 1j * rng.normal(size=(2 ** len(ws),) * 2)
+        return qp.Hermitian(m + m.conj().T, wires=ws)
+    w.stub_realize["Hermitian"] = real_opaque
     w.stub_realize["Prod"] = lambda fields: __import__("pennylane").prod(*fields["operands"])
     w.stub_realize["Tape"] = real_tape
 
@@ -512,13 +537,29 @@ def add_diagonalize_bookkeeping(plan, tier):
         return list(x.items) if isinstance(x, PyList) else list(x)
 
     def kind_of(op):
-        return op.cls.name if isinstance(op, Rec) else DG_REAL_NAME.get(type(op).__name__, type(op).__name__)
+        k = op.cls.name if isinstance(op, Rec) else DG_REAL_NAME.get(type(op).__name__, type(op).__name__)
+        return k if k in DG_KINDS.values() or k == "Prod" else "Opaque"
 
     def leaves_of(obs):
-        """[(kind, wire)] of a basic observable / a product of basic observables, in operand order"""
+        """[(kind, wire)] of a basic observable / a product of leaves, in operand order; an opaque (non-Pauli) leaf is
+        ("Opaque", (its wires, the observable))"""
         if kind_of(obs) == "Prod":
             return [l for o in obs.operands for l in leaves_of(o)]
+        if kind_of(obs) == "Opaque":
+            return [("Opaque", (seq(obs.wires), obs))]
         return [(kind_of(obs), seq(obs.wires)[0])]
+
+    def leaf_wires(leaf):
+        return leaf[1][0] if leaf[0] == "Opaque" else [leaf[1]]
+
+    def opaque_same(a, b):
+        """the same observable: same (uninterpreted) matrix on the same wires"""
+        if isinstance(a, Rec) or isinstance(b, Rec):
+            if not (isinstance(a, Rec) and isinstance(b, Rec)) or a.cls is not b.cls or len(seq(a.wires)) != len(seq(b.wires)):
+                return False
+            return And(a.ident == b.ident, *[x == y for x, y in zip(seq(a.wires), seq(b.wires))])
+        import pennylane as qp
+        return bool(qp.equal(a, b))
 
     def tape_view(tape):
         """([(j, leaves)] of the observable measurements, [(j, occupied wires)] of the computational-basis ones)"""
@@ -551,11 +592,14 @@ def add_diagonalize_bookkeeping(plan, tier):
         cs = []
         for a in range(len(flat)):
             for b in range(a + 1, len(flat)):
-                if flat[a][0] != flat[b][0]:
-                    cs.append(flat[a][1] == flat[b][1])
-        for k, x in flat:
-            if k != "Z":
-                cs += [x == u for _, ws in cb_mps for u in ws]
+                share = [x == y for x in leaf_wires(flat[a]) for y in leaf_wires(flat[b])]
+                if flat[a][0] == "Opaque" and flat[b][0] == "Opaque":
+                    cs.append(And(Or(*share), Not(opaque_same(flat[a][1][1], flat[b][1][1]))))
+                elif flat[a][0] != flat[b][0]:
+                    cs.append(Or(*share))
+        for leaf in flat:
+            if leaf[0] != "Z":
+                cs += [x == u for x in leaf_wires(leaf) for _, ws in cb_mps for u in ws]
         return Or(*cs) if cs else False
 
     def well_formed(a):
@@ -563,12 +607,14 @@ def add_diagonalize_bookkeeping(plan, tier):
             return True
         tw = seq(a.tape.wires)
         obs_mps, cb_mps = tape_view(a.tape)
-        used = [x for _, ls in obs_mps for _, x in ls] + [x for (j, _) in cb_mps for x in seq(a.tape.measurements.items[j].wires)]
+        used = [x for _, ls in obs_mps for l in ls for x in leaf_wires(l)] + [x for (j, _) in cb_mps for x in seq(a.tape.measurements.items[j].wires)]
         facts = [z3.Distinct(*tw)] + [z3.Or(*[x == u for u in tw]) for x in used]
         for j, _ in cb_mps:
             ws = seq(a.tape.measurements.items[j].wires)
             if len(ws) > 1:
                 facts.append(z3.Distinct(*ws))
+        for _, ls in obs_mps:
+            facts += [z3.Distinct(*leaf_wires(l)) for l in ls if len(leaf_wires(l)) > 1]
         return z3.And(*facts)
 
     def close(a, b):
@@ -633,6 +679,12 @@ def add_diagonalize_bookkeeping(plan, tier):
             if len(nls) != len(ls):
                 return False
             for (k, x), (nk, nx) in zip(ls, nls):
+                if k == "Opaque" or nk == "Opaque":
+                    if k != nk:
+                        return False
+                    goals.append(opaque_same(nx[1], x[1]))                              # returned unchanged
+                    goals += [g.wire != u for g in gates for u in x[0]]                 # none of its wires carries a basis change
+                    continue
                 goals.append(nx == x)
                 if k == "Identity":
                     if nk != "Identity":
@@ -650,6 +702,9 @@ def add_diagonalize_bookkeeping(plan, tier):
     shapes += [(a, b) for a in obs_pool for b in obs_pool]
     shapes += [(("P", 0), ("P", 1)), (("S", 0), ("C", 1))]
     shapes += DG_TRIPLES
+    n_pauli_shapes = len(shapes)
+    shapes += [(s,) for s in DG_OPQ] + [(a, b) for a in DG_OPQ for b in DG_OPQ]
+    shapes += [p for a in DG_OPQ for b in obs_pool + cb_pool for p in ((a, b), (b, a))] + DG_OPQ_TRIPLES
     if tier != "quick":
         shapes += [(a, b, c) for a in (("P", 0), ("P", 1)) for b in DG_OBS[:5] for c in DG_OBS[:7]]
     cases = []
@@ -662,7 +717,7 @@ def add_diagonalize_bookkeeping(plan, tier):
         cases.append(c)
     fc = FnContract(w, "_diagonalize_subset_of_pauli_obs", cases)
     for q in ("_diagonalize_subset_of_pauli_obs", "_diagonalize_observable", "_check_if_diagonalizing", "_get_obs_and_gates",
-              "_diagonalize_composite_op"):
+              "_diagonalize_composite_op", "_diagonalize_non_basic_observable"):
         plan.fn_under_contract(DG, q)
     for ob in obligations_for("C20", fc, tier):
         plan.add(ob)
@@ -671,7 +726,11 @@ def add_diagonalize_bookkeeping(plan, tier):
                        f"{len(DG_CB)} computational-basis shapes (probs / sample / counts with 0..2 wires), all ordered pairs "
                        "computational-basis x observable and observable x observable, 2 computational-basis pairs, "
                        f"{len(DG_TRIPLES)} triples; {DG_NW} distinct symbolic tape wires, every measurement wire any of them; "
-                       "supported_base_obs any subset of {X, Y, Hadamard} (symbolic); to_eigvals=False"],
+                       "supported_base_obs any subset of {X, Y, Hadamard} (symbolic); to_eigvals=False",
+                       f"_diagonalize_subset_of_pauli_obs with an opaque non-Pauli leaf (default _diagonalize_non_basic_observable body, F37): "
+                       f"{len(DG_OPQ)} shapes (opaque observable on 1 / 2 symbolic wires, product X @ opaque) alone, all ordered pairs among "
+                       f"them and with every observable / computational-basis shape above, {len(DG_OPQ_TRIPLES)} triples; the observable's "
+                       "identity (matrix) is an uninterpreted label"],
             "assumed": ["X / Y / Hadamard(w).diagonalizing_gates(): a basis change G on wire w with G^dagger Z(w) G == the observable (none "
                         "for Z / Identity); measuring unchanged observables on wires without basis change is unaffected",
                         "functools.singledispatch of _diagonalize_non_basic_observable: a CompositeOp (Prod) goes to _diagonalize_composite_op",
@@ -1190,10 +1249,6 @@ def build(tier, seed):
                        "(_diagonalize_all_pauli_obs, diagonalize_qwc_pauli_words, _change_obs_to_Z), the transform wrapper (supported_base_obs / "
                        "to_eigvals validation, the QuantumFunctionError fallback, tape.copy), to_eigvals=True, SProd / Sum / LinearCombination "
                        "observables (_diagonalize_symbolic_op, _diagonalize_linear_combination), the gates returned by diagonalizing_gates()",
-                       "diagonalize_measurements with observables other than X / Y / Z / Hadamard / Identity and their products (Hermitian, "
-                       "Projector ...: the default _diagonalize_non_basic_observable records only wires[0] and never checks for an earlier basis "
-                       "change; NOT covered, candidate defect reported to the lead: [expval(X(0)), expval(Hermitian(Y-matrix, 0))] is accepted "
-                       "and returns the wrong sign)",
                        "array-valued results, shot vectors (shot_vector_support), broadcast batches (batch_size > 1), autograd / abstract tensors",
                        "tapes containing a non-expectation measurement of Identity are represented by ONE instance (F13: the contract is "
                        "refuted there)"]
